@@ -2,7 +2,7 @@
    Imported by properties/C10.v only; NOT by DC10.v / Dispatch.v (nothing on the dispatch side may depend on the SIDGen library or on the GenEq / GenTac files). *)
 From Coq Require Import ZArith String Ascii List.
 From SIDGen Require Generated.
-From SID Require Import Base Str Ids GenEqConst Notation.
+From SID Require Import Base Str Ids GenEqConstDelim Notation.
 Import ListNotations.
 Open Scope Z_scope.
 
